@@ -18,3 +18,4 @@ CONSTANTS
  Dev_ParentSetFirst = FALSE
  Dev_RecurseDropsArch = FALSE
  Dev_LookupUidFirst = FALSE
+ Dev_UidCollision = FALSE
